@@ -220,7 +220,10 @@ func TestBlockTemplate(t *testing.T) {
 		pol := mempool.Policy{MaxTxVersion: 2, AcceptNonStd: rapid.Bool().Draw(t, "acceptNonStd"), FreeTxRelayLimit: 15, MaxOrphanTxs: 100, MaxOrphanTxSize: 100000,
 			MaxSigOpCostPerTx: 20000, MinRelayTxFee: btcutil.Amount(rapid.SampledFrom([]int64{1000, 0}).Draw(t, "minRelayTxFee")), DisableRelayPriority: rapid.Bool().Draw(t, "disableRelayPriority")}
 		mat := rapid.SampledFrom([]uint16{1, 2}).Draw(t, "maturity")
-		e, err := pe.New(pe.Config{Family: ce.FamFlat, Maturity: mat, Policy: pol, MPol: mpol, Blocks: int(mat) + rapid.IntRange(4, 8).Draw(t, "initialBlocks")})
+		// "gates": the subsidy halves every 5 blocks (and the version gates switch on at heights 4/6/8), so that
+		// templates are built for the first and the last block of a subsidy interval
+		fam := rapid.SampledFrom([]ce.Family{ce.FamFlat, ce.FamGates}).Draw(t, "family")
+		e, err := pe.New(pe.Config{Family: fam, Maturity: mat, Policy: pol, MPol: mpol, Blocks: int(mat) + rapid.IntRange(4, 8).Draw(t, "initialBlocks")})
 		if err != nil {
 			t.Fatalf("VERIF-INFRA: %v", err)
 		}
